@@ -703,7 +703,10 @@ fn render_all(doc: &UiDocument, ds: impl IntoIterator<Item = reporting::Reportab
 
 fn check_mode(tm: &TypeMap, src: &str, mode: Mode) -> Result<ModeStats, String> {
     let mut st = ModeStats::default();
+    // tree-sitter (third-party GLR parser with error recovery) runs inside `UiDocument::parse`
+    crate::set_phase("tree-sitter-parse");
     let doc = UiDocument::parse(src, "MyType", None);
+    crate::set_phase("qmluic");
     if doc.source() != src {
         return Err("document source differs from the input".into());
     }
@@ -874,7 +877,19 @@ fn run_cli(src: &str, reject: bool) -> Sexp {
     let stderr = std::fs::read(&err_path).map(|b| String::from_utf8_lossy(&b).into_owned()).unwrap_or_default();
     let wrote_ui = dir.path().join("main.ui").exists();
     let Some(status) = status else {
-        return node("fail", vec![st("cli-timeout"), node("seconds", vec![num(CLI_TIMEOUT.as_secs())])]);
+        // where was the time spent?  Run the tree-sitter parse alone on a helper thread with the same budget
+        // (the thread is abandoned if it does not finish: it cannot be interrupted)
+        let (tx, rx) = std::sync::mpsc::channel();
+        let text = src.to_owned();
+        std::thread::Builder::new()
+            .stack_size(64 * 1024 * 1024)
+            .spawn(move || {
+                let _ = UiDocument::parse(text, "Main", None);
+                let _ = tx.send(());
+            })
+            .ok();
+        let phase = if rx.recv_timeout(CLI_TIMEOUT).is_ok() { "qmluic" } else { "tree-sitter-parse" };
+        return node("fail", vec![st("cli-timeout"), node("seconds", vec![num(CLI_TIMEOUT.as_secs())]), node("phase", vec![st(phase)])]);
     };
     match status.code() {
         Some(c @ (0 | 1)) => {
